@@ -11,6 +11,7 @@
 // Statistics are written (at exit and before every trap) to $FZ_STATS in the shard format of pbt_main.cpp.
 #include "riddle_lexer.h"
 #include "riddle_parser.h"
+#include <algorithm>
 #include <cstdint>
 #include <cstdio>
 #include <cstdlib>
@@ -29,7 +30,7 @@ extern "C" void __lsan_enable();
 
 namespace
 {
-  long n_leakchecks = 0;
+  long n_leakchecks = 0, n_excluded_deep = 0;
   long n_exec = 0, n_accept = 0, n_reject = 0, n_nontrivial = 0, n_m1 = 0, n_m2 = 0;
   std::unordered_set<uint64_t> nt_hashes;
   std::vector<std::string> samples;
@@ -112,6 +113,18 @@ extern "C" int LLVMFuzzerTestOneInput(const uint8_t *data, size_t size)
 {
   std::string in((const char *)data, size);
   ++n_exec;
+  { // exclusion predicate of known finding KF11 (unbounded recursion of the recursive-descent parser: a few thousand nested
+    // brackets overflow the stack, sooner in this instrumented build): texts nested deeper than 150 are not parsed, and counted
+    int depth = 0, max_depth = 0, run = 0; // open brackets, and chains of prefix operators (each is one level of recursion too)
+    for (unsigned char c : in)
+    {
+      if (c == '{' || c == '(' || c == '[') max_depth = std::max(max_depth, ++depth);
+      else if (c == '}' || c == ')' || c == ']') depth = std::max(0, depth - 1);
+      if (c == '-' || c == '+' || c == '!') max_depth = std::max(max_depth, depth + ++run);
+      else if (c > ' ') run = 0;
+    }
+    if (max_depth > 150 && !getenv("FZ_NO_DEPTH_LIMIT")) { ++n_excluded_deep; classes["excluded: nested deeper than 150 (known finding KF11)"]++; return 0; }
+  }
   // allocations of parses that may end in a rejection are not tracked by LeakSanitizer (a rejected text may leave a partial
   // syntax tree behind; the property promises leak-freedom for valid programs only); an accepted text is parsed once more
   // below with tracking on
